@@ -22,6 +22,8 @@
 (*   a, d     readings (sequences of rationals; length 1 for scalars)         *)
 (*   au, du   unit name of every reading ("bare" for bare kinds)              *)
 (*   rt, at   tolerances [k |-> "bare"|"q", u |-> unit name, v |-> rational]  *)
+(*   sa, sd   tag of every reading: "" | "-0" | "nan" | "inf" | "-inf"        *)
+(*   en       the equal_nan keyword: "" (not passed) | "true" | "false"       *)
 (* An observation o: [k |-> "true"|"false"|"pass"|"raise"|"vec", exc, v].     *)
 EXTENDS Rational, Sequences, FiniteSets, TLC, Json
 
@@ -42,6 +44,9 @@ QLe(a, b) == QSub(a, b)[1] <= 0
 QEq(a, b) == QSub(a, b)[1] = 0
 
 (* ---------------- units ---------------- *)
+\* registry "dx": the SAME SPELLING with another value - la2/lb2 are the symbols la/lb of a second dyadic registry (la = 4 there, lb
+\* unchanged); lapre/lapost are the symbol la of a third registry taken before/after registry.modify("la", 4).  A unit is what it
+\* is worth, not how it is spelled: the predicates only ever see dimension, scale and zero point.
 \* scale relative to a per-dimension base chosen so that every scale is a small rational:
 \*   dyadic registry: la = 1;  real registry: length in 1e-4 m, time in ms, temperature in 1e-2 K (off = zero point)
 UT(reg, dim, n, d, off) == [reg |-> reg, dim |-> dim, s |-> <<n, d>>, off |-> off]
@@ -49,6 +54,7 @@ Units == [
   la |-> UT("dy", "L", 1, 1, 0), lb |-> UT("dy", "L", 1024, 1, 0), lc |-> UT("dy", "L", 1, 8, 0), ld |-> UT("dy", "L", 1024, 1, 0),
   ta |-> UT("dy", "T", 1, 1, 0), tb |-> UT("dy", "T", 16, 1, 0),
   na |-> UT("dy", "N", 1, 1, 0), nq |-> UT("dy", "N", 1, 4, 0),
+  la2 |-> UT("dx", "L", 4, 1, 0), lb2 |-> UT("dx", "L", 1024, 1, 0), lapre |-> UT("dx", "L", 1, 1, 0), lapost |-> UT("dx", "L", 4, 1, 0),
   m |-> UT("re", "L", 10000, 1, 0), km |-> UT("re", "L", 10000000, 1, 0), cm |-> UT("re", "L", 100, 1, 0), inch |-> UT("re", "L", 254, 1, 0),
   s |-> UT("re", "T", 1000, 1, 0), ms |-> UT("re", "T", 1, 1, 0),
   dimensionless |-> UT("re", "N", 1, 1, 0), percent |-> UT("re", "N", 1, 100, 0),
@@ -63,6 +69,10 @@ UnitRow(u) ==
     [] u = "tb" -> UT("dy", "T", 16, 1, 0)
     [] u = "na" -> UT("dy", "N", 1, 1, 0)
     [] u = "nq" -> UT("dy", "N", 1, 4, 0)
+    [] u = "la2" -> UT("dx", "L", 4, 1, 0)
+    [] u = "lb2" -> UT("dx", "L", 1024, 1, 0)
+    [] u = "lapre" -> UT("dx", "L", 1, 1, 0)
+    [] u = "lapost" -> UT("dx", "L", 4, 1, 0)
     [] u = "m" -> UT("re", "L", 10000, 1, 0)
     [] u = "km" -> UT("re", "L", 10000000, 1, 0)
     [] u = "cm" -> UT("re", "L", 100, 1, 0)
@@ -91,10 +101,18 @@ EqualHelpers == {"np.array_equal", "np.array_equiv", "assert_array_equal_units"}
 UnytHelpers == {"allclose_units", "assert_allclose_units"}
 Kinds == {"q", "arr", "bs", "ba", "lst"}
 BareKinds == {"bs", "ba"}
-ScalarKinds == {"q", "bs"}
+ScalarKinds == {"q", "bs", "a0"}           \* "a0": 0-d unyt_array
 
-N(c) == IF Len(c.a) > Len(c.d) THEN Len(c.a) ELSE Len(c.d)
 El(v, i) == IF Len(v) = 1 THEN v[1] ELSE v[i]
+\* an empty array (a = <<>>, its unit in au = <<u>>) broadcasts with an empty array or a scalar to an empty result
+N(c) == IF Len(c.a) = 0 \/ Len(c.d) = 0 THEN 0 ELSE IF Len(c.a) > Len(c.d) THEN Len(c.a) ELSE Len(c.d)
+\* special values: c.sa / c.sd tag every reading: "" finite (the rational counts), "-0" negative zero (a zero), "nan", "inf", "-inf"
+\* (the rational is a placeholder).  NumPy's documented closeness: a NaN agrees with nothing - unless equal_nan=True (c.en = "true")
+\* and the other side is a NaN too; an infinity agrees with the same infinity only.
+NonFinite == {"nan", "inf", "-inf"}
+Special(c, i) == El(c.sa, i) \in NonFinite \/ El(c.sd, i) \in NonFinite
+SpecialClose(c, i) == IF El(c.sa, i) = "nan" \/ El(c.sd, i) = "nan" THEN c.en = "true" /\ El(c.sa, i) = El(c.sd, i)
+                      ELSE El(c.sa, i) = El(c.sd, i)
 \* "arrays without units are considered dimensionless" (unyt.testing): a bare operand of the unyt helpers is dimensionless
 EU(c, u) == IF u = "bare" THEN Dimless(c.reg) ELSE u
 AllTrue(v) == \A i \in DOMAIN v : v[i]
@@ -104,7 +122,7 @@ AllTrue(v) == \A i \in DOMAIN v : v[i]
 CloseEl(A, D, atolSI, r) == QLe(RAbs(QSub(A, D)), QAdd(atolSI, QMul(r, RAbs(D))))
 \* verdict vector when element i of actual/desired is read in unit fa[i]/fd[i]
 CloseVec(c, fa, fd, atolSI, r) ==
-  [i \in 1..N(c) |-> CloseEl(SI(El(c.a, i), El(fa, i)), SI(El(c.d, i), El(fd, i)), atolSI, r)]
+  [i \in 1..N(c) |-> IF Special(c, i) THEN SpecialClose(c, i) ELSE CloseEl(SI(El(c.a, i), El(fa, i)), SI(El(c.d, i), El(fd, i)), atolSI, r)]
 EUa(c) == [i \in DOMAIN c.au |-> EU(c, c.au[i])]
 EUd(c) == [i \in DOMAIN c.du |-> EU(c, c.du[i])]
 Commens(fa, fd) == \A i \in DOMAIN fa : \A j \in DOMAIN fd : UDim(fa[i]) = UDim(fd[j]) /\ UDim(fa[i]) = UDim(fa[1])
@@ -168,12 +186,22 @@ PNp(c, o) ==
 \* --- np.array_equal / np.array_equiv / assert_array_equal_units: equal values AND equal units ---
 EqUnits(c) == \A i \in DOMAIN c.au : \A j \in DOMAIN c.du : SameUnit(EU(c, c.au[i]), EU(c, c.du[j])) /\ SameUnit(EU(c, c.au[i]), EU(c, c.au[1]))
 ShapeOk(c) == c.helper = "np.array_equal" => ((c.ka \in ScalarKinds) = (c.kd \in ScalarKinds))
-ReadingsEq(c) == \A i \in 1..N(c) : QEq(El(c.a, i), El(c.d, i))
+NaNPair(c, i) == El(c.sa, i) = "nan" /\ El(c.sd, i) = "nan"
+\* nanEq: do two NaNs at the same position count as equal
+ReadingsEqN(c, nanEq) == \A i \in 1..N(c) : IF NaNPair(c, i) THEN nanEq
+                                               ELSE IF Special(c, i) THEN El(c.sa, i) = El(c.sd, i)
+                                               ELSE QEq(El(c.a, i), El(c.d, i))
+ReadingsEq(c) == ReadingsEqN(c, FALSE)
 EqExpected(c) == EqUnits(c) /\ ShapeOk(c) /\ ReadingsEq(c)
+\* Not demanded: whether NaNs at equal positions are "equal values" (np.array_equal: no, unless equal_nan=True; numpy's
+\* assert_array_equal, which assert_array_equal_units wraps: yes - both documented by NumPy).  With such a pair and everything else
+\* equal the predicate is silent; with different units or any other difference it demands refusal as always.
+EqUndecided(c) == ~EqExpected(c) /\ EqUnits(c) /\ ShapeOk(c) /\ ReadingsEqN(c, TRUE)
 PEqual(c, o) ==
   LET yes == IF c.helper = "assert_array_equal_units" THEN "pass" ELSE "true"
       no == IF c.helper = "assert_array_equal_units" THEN "raise" ELSE "false" IN
   IF EqExpected(c) THEN (IF o.k = yes THEN "" ELSE "refuses-equal-values-in-equal-units")
+  ELSE IF EqUndecided(c) THEN (IF o.k \in {yes, no} THEN "" ELSE "neither-accepts-nor-refuses")
   ELSE IF o.k = no THEN ""
   ELSE IF ~EqUnits(c) THEN "accepts-different-units" ELSE "accepts-different-values"
 
@@ -191,7 +219,12 @@ PhysKey(c) ==
   IF ~Strict(c) THEN <<>>
   ELSE <<c.helper, Len(c.a), Len(c.d), UDim(EUa(c)[1]),
          [i \in DOMAIN c.a |-> SI(c.a[i], EUa(c)[i])], [i \in DOMAIN c.d |-> SI(c.d[i], EUd(c)[i])],
-         RtolPhys(c), AtolSI(c, EUd(c)[1])>>
+         RtolPhys(c), AtolSI(c, EUd(c)[1]), c.sa, c.sd, c.en>>
+\* the asserting and the boolean form of one helper are ONE condition in the statement ("allclose_units and assert_allclose_units
+\* accept exactly when ..."): two cases with the same FormKey differ only in the form; the assert form must pass exactly when the
+\* boolean form returns True
+FormKey(c) == IF c.helper \in UnytHelpers THEN <<c.reg, c.ka, c.kd, c.a, c.au, c.d, c.du, c.rt, c.at, c.sa, c.sd, c.en>> ELSE <<>>
+Accepts(o) == o.k \in {"true", "pass"}
 Verdict(o) == IF o.k \in {"true", "pass"} THEN <<TRUE>> ELSE IF o.k = "vec" THEN o.v ELSE <<FALSE>>
 
 (* ======================= implementation side (T) ======================= *)
@@ -212,12 +245,12 @@ TUnytR(c, atolRef, rtolMode) ==
            vec == [i \in 1..N(c) |->
                     LET x == ToUnit(El(c.a, i), EU(c, El(c.au, i)), ua)
                         y == ToUnit(El(c.d, i), EU(c, El(c.du, i)), ua) IN
-                    QLe(RAbs(QSub(x, y)), QAdd(atol, QMul(r, RAbs(y))))] IN
+                    IF Special(c, i) THEN SpecialClose(c, i) ELSE QLe(RAbs(QSub(x, y)), QAdd(atol, QMul(r, RAbs(y))))] IN
        IF AllTrue(vec) THEN Out(UAcceptK(c), "", <<>>) ELSE bad
 TUnyt(c) == TUnytR(c, "d", "phys")
 
 \* getattr(x, "units", NULL_UNIT): only unyt objects have the attribute; NULL_UNIT == dimensionless
-CodeUnit(c, k, us) == IF k \in {"q", "arr"} THEN us[1] ELSE "NULL"
+CodeUnit(c, k, us) == IF k \in {"q", "arr", "a0"} THEN us[1] ELSE "NULL"
 IsNull(c, u) == u = "NULL" \/ SameUnit(u, Dimless(c.reg))
 CSame(c, u, v) == IF u = "NULL" \/ v = "NULL" THEN IsNull(c, u) /\ IsNull(c, v) ELSE SameUnit(u, v)
 TNp(c) ==
@@ -227,11 +260,13 @@ TNp(c) ==
            vec == [i \in 1..N(c) |->
                     LET x == El(c.a, i)
                         y == IF conv THEN ToUnit(El(c.d, i), cd, ca) ELSE El(c.d, i) IN   \* otherwise the raw numbers meet
-                    QLe(RAbs(QSub(x, y)), QAdd(c.at.v, QMul(c.rt.v, RAbs(y))))] IN
+                    IF Special(c, i) THEN SpecialClose(c, i) ELSE QLe(RAbs(QSub(x, y)), QAdd(c.at.v, QMul(c.rt.v, RAbs(y))))] IN
        IF c.helper = "np.isclose" THEN Out("vec", "", vec) ELSE Out(IF AllTrue(vec) THEN "true" ELSE "false", "", <<>>)
 TEqual(c) ==
   LET ca == CodeUnit(c, c.ka, c.au)  cd == CodeUnit(c, c.kd, c.du)
-      ok == CSame(c, ca, cd) /\ ShapeOk(c) /\ ReadingsEq(c) IN
+      \* NaNs at equal positions: equal for numpy's assert_array_equal, and for np.array_equal(equal_nan=True)
+      nanEq == c.helper = "assert_array_equal_units" \/ (c.helper = "np.array_equal" /\ c.en = "true")
+      ok == CSame(c, ca, cd) /\ ShapeOk(c) /\ ReadingsEqN(c, nanEq) IN
   IF c.helper = "assert_array_equal_units" THEN (IF ok THEN Out("pass", "", <<>>) ELSE Out("raise", "", <<>>))
   ELSE Out(IF ok THEN "true" ELSE "false", "", <<>>)
 T(c) == IF c.helper \in UnytHelpers THEN TUnyt(c)
